@@ -355,9 +355,9 @@ const EXPR_GAP: [&[&str]; 6] = [
     &["", " ", "  "],
     &["", "\n", "\n  ", " "],
     &["", "\r\n", " \r\n "],
-    &["", "/* \u{5B57} */", " /*\u{6CE8}\u{91CA}*/ ", " "],
+    &["", "/* \u{5B57} */", " /*\u{6CE8}\u{91CA}*/ ", " ", "/* a */ /* b */", "/*a*//*b*/"],
     &["", "/*\u{1F600}*/", "/* x\n\u{1F600} */", "/*\r\n\u{1F600}\u{1F680}*/ ", "\n"],
-    &["", "", " ", "\n", "\r\n  ", "/*\u{5B57}*/", "/* a\n\u{1F600} */", "\t", " /*\u{1F600}\r\n\u{5B57}\u{1F600}*/"],
+    &["", "", " ", "\n", "\r\n  ", "/*\u{5B57}*/", "/* a\n\u{1F600} */", "\t", " /*\u{1F600}\r\n\u{5B57}\u{1F600}*/", " /*a*/\n/*b*/ /*c*/ "],
 ];
 /// optional gap between nodes
 const NODE_GAP: [&[&str]; 6] = [
